@@ -326,7 +326,8 @@ class CFG:
         new_productions = []
         for terminal in self._terminals:
             var = Variable(str(terminal.value) + "#CNF#")
-            while var in self._variables:
+            # Fresh for the grammar and for the other terminals
+            while var in self._variables or var in term_to_var.values():
                 var = Variable(str(var.value) + "#")
             term_to_var[terminal] = var
         # We want to add only the useful productions
